@@ -21,7 +21,7 @@ C0, C1 = 60000, 3000  # budget in line events; measured maxima are written into 
 SIGMA_DOC = [
     "\n", "    ", " ", ":param a:", ":type a:", ":return:", ":rtype:", "Args:", "Returns:", "Raises:", "Parameters\n----------\n",
     "Returns\n-------\n", "a (int): ", "a : int", "*args", "**kwargs", "a", "int", "`", "```", ":", ".", ",", "Defaults to 5", "the value",
-    " or ", " of ", "Example:", ":param *args:", ":param **kwargs:",
+    " or ", " of ", "Example:", ":param *args:", ":param **kwargs:", "\t",
 ]
 
 WS = [
@@ -164,6 +164,11 @@ def run(case):
             for edd in (True, False):
                 v, steps, o = _check_call("parse_docstring", len(s), cdd.shared.docstring_parsers.parse_docstring, s, emit_default_doc=edd)
                 note(v, steps, len(s), o, sub)
+            # the keyword arguments the other calls leave at their defaults: no word wrap (descriptions keep their line breaks), inferred types, original whitespace
+            v, steps, o = _check_call("parse_docstring_kwargs", len(s), cdd.shared.docstring_parsers.parse_docstring, s, word_wrap=False, infer_type=True, parse_original_whitespace=True)
+            note(v, steps, len(s), o, sub)
+            v, steps, o = _check_call("parse_docstring_no_wrap", len(s), cdd.shared.docstring_parsers.parse_docstring, s, word_wrap=False)
+            note(v, steps, len(s), o, sub)
             v, steps, o = _check_call("split_header_args_footer", len(s), cdd.shared.docstring_utils.parse_docstring_into_header_args_footer, s, s)
             note(v, steps, len(s), o, sub)
     elif case["kind"] == "emit":
